@@ -1,8 +1,22 @@
 (* C18 — property theorems only: each restates the full statement and is closed by the lemma proved in Proofs/. *)
 From Coq Require Import ZArith List Bool.
-From NPS Require Import ListAux PySlice NumpySem Scatter BuildIdx XorBroadcast View Index Assign Reduce Scan RaOps Heap Hash HashRun BitArr RLE RLEOps RLE2d DataClass RowsSpec AssignSpec MapSpec Denote DataClassProof DataClassAstype.
+From NPS Require Import ListAux PySlice NumpySem Scatter BuildIdx XorBroadcast View Index Assign Reduce Scan RaOps Heap Hash HashRun BitArr RLE RLEOps RLE2d DataClass RowsSpec AssignSpec MapSpec Denote DataClassProof DataClassAstype DataClassIter.
 Import ListNotations.
 Open Scope Z_scope.
+
+Theorem C18_obj_iter_entries :
+  forall (E : Type) (d : E) (k : nat) (R : list (list E)),
+       (1 <= k)%nat ->
+       obj_iter E (cols E d k R) =
+       map (fun row : list E => Ok (map (fun j : nat => nth j row d) (seq 0 k))) R.
+Proof. exact obj_iter_entries. Qed.
+Print Assumptions C18_obj_iter_entries.
+
+Theorem C18_obj_iter_length :
+  forall (E : Type) (d : E) (k : nat) (R : list (list E)),
+       (1 <= k)%nat -> zlen (obj_iter E (cols E d k R)) = obj_len E (cols E d k R).
+Proof. exact obj_iter_length. Qed.
+Print Assumptions C18_obj_iter_length.
 
 Theorem C18_obj_select_entries :
   forall (E : Type) (d : E) (k : nat) (R : list (list E)) (s : rowsel),
